@@ -88,6 +88,15 @@ PROBES = {
     "linebuf": "\tcpu z80\nv\tequ 124\n" + "".join(
         "lb%d\tmacro pp\n\tdb %s%spp\n\tendm\n\tlb%d v+10\n" % (n, "1," * 400, " " * (n - 4 - 800 - 4), n)
         for n in (1015, 1016, 1017, 1021, 1022, 1023, 1024, 1025, 1026, 1151, 1152, 1153, 2047, 2048, 2049)),
+    # targets with a DATA (and IO) segment used without ORG: its origin must be the target's own
+    "16c5x": "\tcpu 16c57\n\tsegment data\nv:\tres 2\nw:\tres 1\n\tsegment code\n\tmovwf w\n\tdata w\n",
+    "hmcs400": "\tcpu hd614023\n\tsegment data\nv:\tres 2\nw:\tres 1\n\tsegment code\n\tdata w\n",
+    "olms40": "\tcpu msm5840\n\tsegment data\nv:\tres 2\nw:\tres 1\n\tsegment code\n\tdata w\n",
+    "olms50": "\tcpu msm5054\n\tsegment data\nv:\tres 2\nw:\tres 1\n\tsegment code\n\tdata w\n",
+    "f8": "\tcpu f3850\n\tsegment data\nv:\tds 2\nw:\tds 1\n\tsegment io\nio1:\tds 1\n\tsegment code\nc1:\tdb w,io1\n\tdw c1\n",
+    "sx20d": "\tcpu sx20\n\tsegment data\nv:\tres 2\nw:\tres 1\n\tsegment code\n\tmov w,#w\n\tdata w\n",
+    "47c00": "\tcpu 47c00\n\tsegment data\nv:\tds 2\nw:\tds 1\n\tsegment code\n\tld a,w\n",
+    "avr": "\tcpu at90s8515\n\tsegment data\nv:\tres 2\nw:\tres 1\n\tsegment code\n\tlds r1,w\n",
     "st6": "\tcpu st6210\n\tword 1234h,5678h\n\tbyte 1\n\tascii \"ab\"\n\tld a,12h\n",
     "6805": "\tcpu 6805\n\tfdb $1234\n\tdw $5678\n\tlda $12\n\tlda $1234\n",
     "6811": "\tcpu 6811\n\tfdb $1234\n\tdw $5678\n\tadr $9abc\n\tldaa $12\n\tldaa $1234\n",
